@@ -188,7 +188,13 @@ def rewrite_stream(chk, cases, label):
                        (v["filter"] is None or is_covered(cv) == v["filter"])
                 if keep:
                     want.append([a, r, cv])
-            if ms(want) != ms(run):
+            nb = lambda rs: [x for x in rs if b"\\" not in bytes.fromhex(x[0])]
+            if ms(want) != ms(run) and in_class_backslash(c) and (v["ignore"] or v["keep"]) and ms(nb(want)) == ms(nb(run)) \
+                    and "backslash-in-mapped-path" in known:
+                # same known class: the globs are asked about the mapped value before its backslashes become '/' (one file name), so a
+                # record whose abs path still shows the backslashes may be selected differently from its reported spelling
+                dist["known_backslash_mapping_glob"] += 1
+            elif ms(want) != ms(run):
                 chk.violation({"kind": "oracle", "engine": "rewrite", "case": c, "variant": v, "impl": pathgen.canon_run(run), "expected": pathgen.canon_run(want),
                                "clause": "a file is reported iff not ignored, kept when --keep-only is given, existing when --ignore-not-existing, and of the requested --filter status"}, tag=label)
                 ok_case = False
@@ -206,7 +212,9 @@ def rewrite_stream(chk, cases, label):
                 body = parts[1:] if rb.startswith(b"/") else parts
                 bad = b"\\" in rb or (rb not in (b"", b"/") and any(p in (b"", b".", b"..") for p in body))
                 if bad:
-                    if in_class_backslash(c) and "backslash-in-mapped-path" in known:
+                    # the known class is about '.', '..' or empty components that survive because a mapped value with backslashes is
+                    # normalised as one file name; the backslashes themselves are always turned into '/': one that survives is judged
+                    if b"\\" not in rb and in_class_backslash(c) and "backslash-in-mapped-path" in known:
                         dist["known_backslash_mapping"] += 1
                     else:
                         chk.violation({"kind": "oracle", "engine": "rewrite", "case": c, "variant": v, "record": [a, r],
@@ -228,6 +236,30 @@ def rewrite_stream(chk, cases, label):
                                 ok_case = False
         if isinstance(base, dict):
             continue
+        # ---- the report pipeline of main.rs (merge_same_paths after rewrite_paths, --filter applied there): the status clause and
+        # the covered / uncovered partition must hold whatever the number of records that reach the merge step (two, one, none)
+        mg = ri.get("merged")
+        if mg and len(mg) == len(c["variants"]) and not any(isinstance(x, dict) for x in mg):
+            def mobs(run):
+                return collections.Counter(vlib.canon([r, sorted(map(list, cv["lines"])), sorted([l, list(b)] for l, b in cv["branches"]),
+                                                       sorted((n, e) for n, _, e in cv["funcs"])]) for _, r, cv in run)
+            for vi, v in enumerate(c["variants"]):
+                if v["filter"] is None:
+                    continue
+                chk.count()
+                wrong = [[a, r] for a, r, cv in mg[vi] if is_covered(cv) != v["filter"]]
+                if wrong:
+                    chk.violation({"kind": "oracle", "engine": "rewrite", "case": c, "variant": v, "merged": pathgen.canon_run(mg[vi]), "records": wrong,
+                                   "clause": "a file is reported under --filter covered / uncovered only if it has that status (report pipeline: merge_same_paths after rewrite_paths)"}, tag=label)
+                    ok_case = False
+            if len(c["variants"]) > 4:
+                chk.count()
+                if mobs(mg[3]) + mobs(mg[4]) != mobs(mg[0]):
+                    chk.violation({"kind": "oracle", "engine": "rewrite", "case": c, "covered": pathgen.canon_run(mg[3]), "uncovered": pathgen.canon_run(mg[4]),
+                                   "all": pathgen.canon_run(mg[0]),
+                                   "clause": "--filter covered and --filter uncovered partition the report (report pipeline: merge_same_paths after rewrite_paths)"}, tag=label)
+                    ok_case = False
+                dist["merged_reports_with_%s" % ("one_record" if len(mg[0]) == 1 else "no_record" if not mg[0] else "several_records")] += 1
         # ---- partitions
         for (x, y, what) in ((1, 2, "--ignore G and --keep-only G partition the unfiltered report"),
                              (3, 4, "--filter covered and --filter uncovered partition the unfiltered report")):
@@ -302,8 +334,14 @@ def cli_stream(chk, n):
         sd = os.path.join(root, "src") if rng.random() < 0.7 else None
         pd = c12.PREFIX if rng.random() < 0.4 else None
         fam = []
-        for u in rng.sample(c12.UNDER, rng.randrange(2, 5)):
-            fam += c12.cli_spellings(rng, u, root, sd, pd)
+        single = rng.random() < 0.3
+        if single:
+            # a report with exactly one record before --filter (or none, once a glob / --ignore-not-existing has removed it)
+            fam = c12.cli_spellings(rng, rng.choice(c12.UNDER), root, sd, pd)[:1]
+        else:
+            for u in rng.sample(c12.UNDER, rng.randrange(2, 5)):
+                fam += c12.cli_spellings(rng, u, root, sd, pd)
+        dist["single_record_cases"] += single
         recs = []
         for i, (k, _) in enumerate(fam):
             lines = sorted(set(rng.sample([1, 2, 3, 4, 5, 6], rng.randrange(0, 4))))
@@ -315,6 +353,9 @@ def cli_stream(chk, n):
         gi = [x for gl in g for x in ("--ignore", gl)]
         gk = [x for gl in g for x in ("--keep-only", gl)]
         variants = {"none": [], "ignore": gi, "keep": gk, "covered": ["--filter", "covered"], "uncovered": ["--filter", "uncovered"], "ine": ["--ignore-not-existing"]}
+        for nm in ("ignore", "keep", "ine"):
+            variants[nm + "+covered"] = variants[nm] + ["--filter", "covered"]
+            variants[nm + "+uncovered"] = variants[nm] + ["--filter", "uncovered"]
         rep = {}
         for name, extra in variants.items():
             p = vlib.sh(base_args + extra + ["-t", "lcov"], cwd=run_dir, timeout=120)
@@ -334,12 +375,17 @@ def cli_stream(chk, n):
             chk.violation(dict(replay, clause="--ignore G and --keep-only G partition the unfiltered report (paths and data)"), tag="cli")
         if rep["covered"] + rep["uncovered"] != base:
             chk.violation(dict(replay, clause="--filter covered and --filter uncovered partition the unfiltered report (paths and data)"), tag="cli")
-        for (path, das), _ in rep["covered"].items():
-            if not any(c > 0 for _, c in json.loads(das)):
-                chk.violation(dict(replay, path=path, clause="--filter covered reports files with an executed line only"), tag="cli")
-        for (path, das), _ in rep["uncovered"].items():
-            if any(c > 0 for _, c in json.loads(das)):
-                chk.violation(dict(replay, path=path, clause="--filter uncovered reports files without executed line only"), tag="cli")
+        for nm in ("ignore", "keep", "ine"):
+            # --filter on top of a selection partitions that selection, however many files it leaves (several, one, none)
+            if rep[nm + "+covered"] + rep[nm + "+uncovered"] != rep[nm]:
+                chk.violation(dict(replay, selection=nm, clause="--filter covered and --filter uncovered partition the report left by the other options (paths and data)"), tag="cli")
+            dist["filtered_selection_of_%s" % ("one_file" if sum(rep[nm].values()) == 1 else "no_file" if not rep[nm] else "several_files")] += 1
+        for nm, rp in rep.items():
+            if nm.endswith("covered"):
+                flag = not nm.endswith("uncovered")
+                for (path, das), _ in rp.items():
+                    if any(c > 0 for _, c in json.loads(das)) != flag:
+                        chk.violation(dict(replay, path=path, report=nm, clause="--filter covered reports files with an executed line only, --filter uncovered files without"), tag="cli")
         want = collections.Counter({k: v for k, v in base.items() if os.path.exists(os.path.join(sd or run_dir, k[0]))})
         if rep["ine"] != want:
             chk.violation(dict(replay, expected=sorted(want.elements()), clause="--ignore-not-existing reports exactly the files that exist on disk"), tag="cli")
@@ -607,6 +653,10 @@ def mapping_stream(chk, n):
                 spelt.append(pd + "/" + u)
             for key in keys:
                 mapping[key] = rng.choice([pd + "/" + u, pd + "/" + u, pd + "//" + u, u] if pd else [u, u, "./" + u])
+                if "/" in u and rng.random() < 0.3:
+                    # a mapping written on Windows: no '.' or '..' in it, so the reported path is the same file, with '/'
+                    mapping[key] = u.replace("/", "\\")
+                    dist["mapped_values_with_backslashes"] += 1
                 spelt.append(rng.choice([c12.flip_first(key), c12.flip_first(key), key]))
             if rng.random() < 0.3:
                 spelt.append("Unmapped/" + u)
@@ -681,6 +731,23 @@ def run(chk):
         c["mapping"] = (c["mapping"] or []) + [[pathgen.hx("bs_key.c"), pathgen.hx("d\\..\\e.c")]]
         c["keys"].append([pathgen.hx("bs_key.c"), {"lines": [[1000 + len(c["keys"]), 1]], "branches": [], "funcs": []}])
         c["meta"]["keys"].append(["bs_key.c", "bs_key.c", "bslash_mapped", "other"])
+        cases.append(c)
+    # mapped values with backslashes but without '.' / '..': outside the known class (the reported path is lib/util/a.c)
+    for i in range(4 if quick else 30):
+        c = pathgen.make_case(chk.rng, 200000 + i)
+        c["mapping"] = (c["mapping"] or []) + [[pathgen.hx("Bsl_key.c"), pathgen.hx("lib\\util\\a.c")]]
+        for k in ("bsl_key.c", "lib/util/a.c"):
+            c["keys"].append([pathgen.hx(k), {"lines": [[1000 + len(c["keys"]), 1]], "branches": [], "funcs": []}])
+            c["meta"]["keys"].append([k, "lib/util/a.c", "bslash_mapped_plain", "other"])
+        cases.append(c)
+    # reports that end up with exactly one record, or none: one key only (and the glob / existence variants on top of it)
+    for i in range(25 if quick else 250):
+        c = pathgen.make_case(chk.rng, 300000 + i)
+        c["keys"] = c["keys"][:1]
+        c["meta"]["keys"] = c["meta"]["keys"][:1]
+        c["keys"][0][1]["lines"] = sorted([l for l in c["keys"][0][1]["lines"] if l[0] < 1000] + [[1000, chk.rng.choice([0, 0, 1])]])
+        if c["mapping"]:
+            c["mapping"] = [m for m in c["mapping"] if bytes.fromhex(m[0]) != b""]
         cases.append(c)
     d2 = rewrite_stream(chk, wit + cases, "rw")
     d3 = cli_stream(chk, 40 if quick else 400)
